@@ -141,6 +141,11 @@ def judge_file(path):
                          {k2: e[k2] for k2 in ("n", "k", "input", "nonce", "soln", "which", "bit")})
                 continue
             n, k, hdr, H, ie = insts[e["inst"]]
+            if e["rust"] != "ok" and not in_envelope(n, k):
+                # An error for parameters outside the supported envelope is always acceptable (and the
+                # reference cannot even hash indices wider than 32 bits there): nothing to judge.
+                cnt("errors_outside_supported_envelope_not_judged")
+                continue
             if t == "v":
                 origin = e["origin"]
                 ok, why = R.valid(n, k, hdr, bytes.fromhex(e["soln"]), H)
